@@ -96,7 +96,7 @@ def symbol_lookup(ck, sim_inl, sim_cut):
                 # expected: symbol with the greatest offset <= lastPC
                 below = z3.ULT(lastpc, offs[0])
                 claims = []
-                if feeds and isinstance(feeds[0], bytes):
+                if feeds and isinstance(feeds[0], bytes) and len(feeds) > 1 and (is_c(feeds[1]) or (isinstance(feeds[1], z3.BitVecRef) and feeds[1].size() == 32)):
                     k = names.index(feeds[0]) if feeds[0] in names[:nsym] else None
                     if k is None: claims.append(z3.BoolVal(False))
                     else:
@@ -107,9 +107,11 @@ def symbol_lookup(ck, sim_inl, sim_cut):
                 else:
                     claims.append(below); rest = feeds
                 # main format: count, address, symbol text, mnemonic, operand
-                if len(rest) >= 5:
+                num = lambda x: is_c(x) or isinstance(x, z3.BitVecRef)
+                def wid(x, w): return is_c(x) or (isinstance(x, z3.BitVecRef) and x.size() == w)
+                if len(rest) >= 5 and wid(rest[0], 64) and wid(rest[1], 32) and wid(rest[4], 32) and isinstance(rest[3], bytes):
                     claims += [bv(rest[0], 64) == cyc, bv(rest[1], 32) == lastpc, z3.BoolVal(rest[3] == b'PFIX'), bv(rest[4], 32) == ins & 0xF]
-                else: claims.append(z3.BoolVal(False))
+                else: claims.append(z3.BoolVal(False))        # not the 'count address symbol mnemonic operand' line of a binary with symbols
                 ok, m = ck.prove(E2, r2.st, z3.And(claims), f"trace prefix with {nsym} symbols: count, address, symbol+offset, mnemonic, operand")
                 if not ok:
                     ck.violation(f"trace-symbol:{nsym}", f"trace() reports {feeds[:2]} for lastPC={model_int(m, lastpc)} with symbol offsets {[model_int(m, x) for x in offs]}", None)
